@@ -36,6 +36,9 @@ def check(ctx):
     sighash_all(ctx, prog)
     channel(ctx, prog)
     verify(ctx, prog)
+    # the signing serialisation writes each input through Input.serialize_to (an EMPTY alternate script, not "no alternate script", for the inputs that
+    # are not being signed) and over the outputs as they are now: the Input/Output writers and the cache discipline are C05's rule instances
+    R.share(ctx, "C05", {"C05-D1": "C04-D5", "C05-D3/CACHE": "C04-D5/CACHE"})
 
 
 def input_binding(ctx, prog):
